@@ -473,6 +473,50 @@ BEGIN { one = 1; g = 7; G["k"] = 7; G[1, 2] = 7; NR = 7; $0 = "7 7 7"; r = f(H, 
 			rep.Count("constant-field-cases")
 		}
 	}
+	// getline into every lvalue kind (Getline{Global,Local,Special,Field,Array*} opcodes): the line read must get the same
+	// kind of value (a numeric string when it looks like a number) whatever the target is; observed through comparison
+	// with a number, truth value, ordering and concatenation, for number-looking lines in non-canonical spellings
+	{
+		lines := "10.0\n1e1\n 10 \nabc\n0.0\n10\n+5\n0x1A\n.5e1\n-0\n\n 0 \n9 \n"
+		targets := []struct{ name, lv string }{
+			{"global", "g"}, {"local", "v"}, {"array-global", `G["k"]`}, {"array-local", `R["k"]`}, {"array-local-num", "R[5]"},
+			{"field", "$2"}, {"field-expr", "$(one + 1)"}, {"array-global-multi", "G[1, 2]"},
+		}
+		forms := []struct{ name, read string }{
+			{"plain", "(getline %s) > 0"},
+			{"pipe", `("printf '10.0\\n1e1\\n 10 \\nabc\\n0.0\\n010\\n'" | getline %s) > 0`},
+		}
+		for _, f := range forms {
+			// read is the loop condition: the direct form reads into the target, the expanded form into a global
+			// temporary that is then assigned to the target
+			mk := func(lv string, expanded bool) string {
+				read := fmt.Sprintf(f.read, lv)
+				if expanded {
+					read = "(" + fmt.Sprintf(f.read, "tmp") + ") && ((" + lv + " = tmp) || 1)"
+				}
+				return fmt.Sprintf(`function rd(R, v,   n) { while (%s) { n++; print ((%s == 10) ? "eq" : "ne"), ((%s) ? "t" : "f"), ((%s < 9) ? "lt" : "ge"), ((%s == "10") ? "seq" : "sne"), "[" %s "]"; if (n > 40) break } return n }
+BEGIN { one = 1; print rd(H) }`, read, lv, lv, lv, lv, lv)
+			}
+			b := runOn(mk("g", false), lines)
+			for _, t := range targets {
+				g := runOn(mk(t.lv, false), lines)
+				e := runOn(mk(t.lv, true), lines)
+				rep.SearchEvals += 2
+				rep.Count("getline-target-cases")
+				// (1) reading into a target = reading into a temporary and assigning it
+				if g != e {
+					rep.Fail(hx.Failure{Class: "getline-target:" + f.name + ":" + t.name + ":expanded", Oracle: "equivalent spellings behave identically",
+						Detail: map[string]any{"program": mk(t.lv, false), "respelled": mk(t.lv, true), "input": lines, "base": g.String(), "respelled_result": e.String()}})
+				}
+				// (2) variables and array elements of either scope hold the value read in the same way (fields are
+				// excluded: a field that is ASSIGNED is a string afterwards in goawk, F-C05-3, whatever assigns it)
+				if !strings.HasPrefix(t.name, "field") && b != g {
+					rep.Fail(hx.Failure{Class: "getline-target:" + f.name + ":" + t.name, Oracle: "equivalent spellings behave identically",
+						Detail: map[string]any{"program": mk("g", false), "respelled": mk(t.lv, false), "input": lines, "base": b.String(), "respelled_result": g.String()}})
+				}
+			}
+		}
+	}
 	// the one known divergence between a chain and its regrouping (conversion happens after ALL operands are evaluated)
 	check("concat-chain-convfmt-side-effect",
 		`function f() { CONVFMT = "%.2g"; return "" } BEGIN { a = 0.123456789; s = a "x" f(); print s }`,
